@@ -109,8 +109,8 @@ def run_case(case):
     text = tdoc.render(case['doc'])
     src = f'\noriginal document:\n{text}'
     if tdoc.alias_context_conflict(case['doc']):
-        # one node object adopted (through yaml aliases) by parents that hand down different inherited flags: what the document means
-        # depends on adoption order, and no text can express it - not what "dump then parse" is about
+        # a node placed (through yaml aliases) below parents that hand down different inherited flags: a shared node holds the flags of the
+        # parent that adopted it last, a copied one keeps the priority of the anchor's place - no text without aliases expresses either
         return Outcome(labels=['skip-shared-node-under-differently-flagged-parents'])
     try:
         D = parse_one(text)
